@@ -244,7 +244,7 @@ class OrthogonalNpcLinearOperator(NpcLinearOperatorWrapper):
 
     def matvec(self, vec):
         # equivalent to using H' = P H P where P is the projector (1-sum_o |o><o|)
-        vec = vec.copy()
+        vec = vec.copy() if isinstance(vec, npc.Array) else [v.copy() for v in vec]  # don't modify the argument
         for o in self.ortho_vecs:  # Project out
             # for a, b in zip(vec, o):
             #    a.iadd_prefactor_other(-npc.inner(b, a, axes='range', do_conj=True), b)
